@@ -121,7 +121,7 @@ OPERANDS = ['a', '$', '_x', 'x$', u'\u00e9', u'a\u00e9', u'\u00e0', u'a\u203f', 
             '0x1f', '017', '"s"', "'t'", '/re/', '/re/g', '/=/', '+x', '++x', '-x', '--x', 'x++', 'x--', '!x', '~x',
             '(x)', '[x]', '{}', 'function(){}', 'this', 'null', 'true', 'typeof x', 'void 0', 'new X', 'a.in',
             'a.if', 'f()', 'a[0]', '+1', '-1', '- -1', '+ +x', 'x ? y : z', 'x, y', 'x = y', 'x in y', '/re/.x',
-            u'$\u00e9', 'in1', 'a / b', 'a / /re/', '/a/', '(new X)', '(new a.B)', 'new X()', '(function(){})', '(a, b)', '({})']
+            u'$\u00e9', 'in1', 'a / b', 'a / /re/', '/a/', u'a\u200c', u'b\u200d', '(new X)', '(new a.B)', 'new X()', '(function(){})', '(a, b)', '({})']
 TEMPLATES = ['X + Y;', 'X - Y;', 'X * Y;', 'X / Y;', 'X % Y;', 'X < Y;', 'X > Y;', 'X << Y;', 'X >> Y;', 'X >>> Y;',
              'X & Y;', 'X | Y;', 'X ^ Y;', 'X && Y;', 'X || Y;', 'X == Y;', 'X === Y;', 'X != Y;', 'X in Y;',
              'X instanceof Y;', 'X = Y;', 'X += Y;', 'X -= Y;', 'X /= Y;', 'X, Y;', 'X ? Y : X;', 'X ? X : Y;',
